@@ -29,6 +29,7 @@ type leaf struct {
 	kind string // "id", "int", "op", "lit"
 	val  string
 	pos  token.Pos
+	id   *ast.Ident
 }
 
 // shapeAndLeaves linearises a statement: structure string (node kinds, arities) and the ordered leaves.
@@ -44,23 +45,23 @@ func shapeAndLeaves(n ast.Node) (string, []leaf) {
 		switch x := n.(type) {
 		case *ast.Ident:
 			sb.WriteString("I")
-			leaves = append(leaves, leaf{"id", x.Name, x.Pos()})
+			leaves = append(leaves, leaf{"id", x.Name, x.Pos(), x})
 		case *ast.BasicLit:
 			sb.WriteString("L")
 			if x.Kind == token.INT {
-				leaves = append(leaves, leaf{"int", x.Value, x.Pos()})
+				leaves = append(leaves, leaf{"int", x.Value, x.Pos(), nil})
 			} else {
-				leaves = append(leaves, leaf{"lit", x.Value, x.Pos()})
+				leaves = append(leaves, leaf{"lit", x.Value, x.Pos(), nil})
 			}
 		case *ast.BinaryExpr:
 			sb.WriteString("B(")
 			walk(x.X)
-			leaves = append(leaves, leaf{"op", x.Op.String(), x.OpPos})
+			leaves = append(leaves, leaf{"op", x.Op.String(), x.OpPos, nil})
 			walk(x.Y)
 			sb.WriteString(")")
 		case *ast.UnaryExpr:
 			sb.WriteString("U(")
-			leaves = append(leaves, leaf{"op", x.Op.String(), x.OpPos})
+			leaves = append(leaves, leaf{"op", x.Op.String(), x.OpPos, nil})
 			walk(x.X)
 			sb.WriteString(")")
 		case *ast.ParenExpr:
@@ -100,7 +101,7 @@ func shapeAndLeaves(n ast.Node) (string, []leaf) {
 			for _, l := range x.Lhs {
 				walk(l)
 			}
-			leaves = append(leaves, leaf{"op", x.Tok.String(), x.TokPos})
+			leaves = append(leaves, leaf{"op", x.Tok.String(), x.TokPos, nil})
 			for _, r := range x.Rhs {
 				walk(r)
 			}
@@ -112,7 +113,7 @@ func shapeAndLeaves(n ast.Node) (string, []leaf) {
 		case *ast.IncDecStmt:
 			sb.WriteString("ID(")
 			walk(x.X)
-			leaves = append(leaves, leaf{"op", x.Tok.String(), x.TokPos})
+			leaves = append(leaves, leaf{"op", x.Tok.String(), x.TokPos, nil})
 			sb.WriteString(")")
 		case *ast.TypeAssertExpr:
 			sb.WriteString("TA(")
